@@ -417,9 +417,9 @@ package vm
 //@   oncall vm.TransferFunc : xfer = xfer + 1
 //@   oncall (*vm.StateChanges).saveBalance : saves = saves + 1
 //@   assertcall StateDB.GetBalance read-order [C13]: $0 == db && saves == reads && reads < 4 && (reads == 0 ==> $1 == from && xfer == 0) && (reads == 1 ==> $1 == to && xfer == 0) && (reads == 2 ==> $1 == from && xfer == 1) && (reads == 3 ==> $1 == to && xfer == 1)
-//@   assertcall vm.TransferFunc transfer-once-between-the-reads [C13]: xfer == 0 && reads == 2 && saves == 2 && $1 == db && $2 == from && $3 == to && $4 == amount
+//@   assertcall vm.TransferFunc transfer-once-between-the-reads [C01 C13]: xfer == 0 && reads == 2 && saves == 2 && $1 == db && $2 == from && $3 == to && $4 == amount
 //@   assertcall (*vm.StateChanges).saveBalance journals-the-value-read [C13]: saves + 1 == reads && $1 == lastacct && $2 != nil && *$2 == bigabs(lastbal) && $3 == idx0
-//@   ensures four-observations [C13]: reads == 4 && saves == 4 && xfer == 1
+//@   ensures four-observations [C01 C13]: reads == 4 && saves == 4 && xfer == 1
 //@   kind mutating
 //@   modifies cell:[]byte, map:map[uint64][][]byte, vm.StorageKey.changes, vm.StorageKey.nodeType, map:map[common.Address]*vm.StorageKey
 //@ end
